@@ -4,6 +4,7 @@
 package setec
 
 import (
+	"bytes"
 	"context"
 	"encoding"
 	"encoding/json"
@@ -176,7 +177,9 @@ func (f fieldInfo) apply(ctx context.Context, s *Store, fullName string) error {
 	}
 	switch f.vtype {
 	case bytesType:
-		f.value.Elem().Set(reflect.ValueOf(v.Get()))
+		// Give the field its own copy: the store shares its buffer with every
+		// other reader of the secret, and the field's owner may modify it.
+		f.value.Elem().Set(reflect.ValueOf(bytes.Clone(v.Get())))
 	case stringType:
 		f.value.Elem().Set(reflect.ValueOf(string(v.Get())))
 	case secretType:
